@@ -60,6 +60,8 @@ static int kind[NLINES + 1];
 static int cur_line;         // token level: line of the directive whose command word was delivered last
 static int protocol_error;
 static bool survived[NLINES + 1], defined_at[NLINES + 1], error_at[NLINES + 1];
+static int cur_c;            // character level: the pending character between files
+static int line_base;        // character level: line number (0-based) of the first line of the current file
 
 #if !CHARLEVEL
 // ---- the line-level reader ------------------------------------------------------------------------------------------
@@ -106,7 +108,7 @@ int CPPPreprocessor::get_preprocessor_args(int c, std::string &args) {
 }
 #define LINE_OF(loc) cur_line
 #else
-#define LINE_OF(loc) ((loc).first_line - 1)
+#define LINE_OF(loc) ((loc).first_line - 1 - line_base)
 #endif
 
 // ---- cut points below the conditional logic -------------------------------------------------------------------------
@@ -141,11 +143,13 @@ void CPPPreprocessor::handle_error_directive(const std::string &args, const YYLT
 struct Frame { bool parent_active, taken, active; };
 
 #if CHARLEVEL
+// All files of this residue class are laid out one after the other in ONE stream (the stream model has a small pool of
+// buffers), each terminated by a sentinel line "Z": the driver stops there, the end of the stream is never read.
 #define LMAX 24
-static char text[NLINES * LMAX + 4];
+#define MAXFILES 64
+static char text[MAXFILES * (NLINES * LMAX + 3) + 4];
 static int put(int n, const char *s) { while (*s) text[n++] = *s++; return n; }
-static int build_text() {
-  int n = 0;
+static int build_text(int n) {
   for (int i = 0; i < NLINES; i++) {
     int k = kind[i];
     if (k == K_MARKER) {
@@ -163,7 +167,7 @@ static int build_text() {
     }
     n = put(n, "\n");
   }
-  n = put(n, "Z\n");                     // sentinel: the driver stops here, the end of the stream is never read
+  n = put(n, "Z\n");
   return n;
 }
 #endif
@@ -194,23 +198,20 @@ static void __attribute__((noinline)) run_file(CPPPreprocessor *pp) {
 
   // driver: the directive dispatch of internal_get_next_token
   protocol_error = 0; cur_line = 0;
+#if !CHARLEVEL
   pp->_start_of_line = true;
-  pp->_save_comments = true;
-  pp->_unget = '\0';
+#endif
   bool consumed = false;
 #if CHARLEVEL
-  int n = build_text();
-  CPPPreprocessor::InputFile *in = new CPPPreprocessor::InputFile;
-  in->_in = vs_istream_bytes(text, (unsigned)n);
-  pp->_infile = in;
-  int c = pp->skip_whitespace(pp->get());
+  int c = cur_c;
+  line_base = pp->get_line_number() - 1;
   for (int step = 0; step < 2 * NLINES + 2; step++) {
     if (c == 'Z') { consumed = true; break; }
     if (c == EOF) break;
     if (c == '#' && pp->_start_of_line) {
       c = pp->skip_whitespace(pp->process_directive(c));
     } else if (c == 'M') {
-      int l = pp->get_line_number() - 1;
+      int l = pp->get_line_number() - 1 - line_base;
       if (l >= 0 && l < NLINES) survived[l] = true; else protocol_error = 1;
       c = pp->skip_whitespace(pp->get());
     } else {
@@ -218,6 +219,7 @@ static void __attribute__((noinline)) run_file(CPPPreprocessor *pp) {
       break;
     }
   }
+  if (consumed) cur_c = pp->skip_whitespace(pp->get());      // first character of the next file
 #else
   rd_line = 0; rd_phase = 0;
   int c = pp->get();
@@ -262,6 +264,18 @@ static void __attribute__((noinline)) run_file(CPPPreprocessor *pp) {
 extern "C" void harness_c09_cond() {
   CPPPreprocessor *pp = new CPPPreprocessor;
   int leaves_run = 0;
+#if CHARLEVEL
+  int n = 0;
+  for (int f = PART; f < NFILES; f += NPARTS) {
+    for (int i = 0; i < NLINES; i++) kind[i] = FILES[f][i];
+    n = build_text(n);
+  }
+  CPPPreprocessor::InputFile *in = new CPPPreprocessor::InputFile;
+  in->_in = vs_istream_bytes(text, (unsigned)n);
+  pp->_infile = in;
+  pp->_start_of_line = true;
+  cur_c = pp->skip_whitespace(pp->get());
+#endif
   for (int f = PART; f < NFILES; f += NPARTS) {
     for (int i = 0; i < NLINES; i++) kind[i] = FILES[f][i];
     run_file(pp);
